@@ -578,6 +578,7 @@ type Report struct {
 	WallS     float64      `json:"wall_s"`
 	SolverS   float64      `json:"solver_time_s"`
 	Queries   int          `json:"queries"`
+	Retried   int          `json:"retried_after_timeout"`
 	BySolver  map[string]int `json:"discharged_by_solver"`
 }
 
@@ -706,6 +707,7 @@ func main() {
 	rep.WallS = time.Since(t0).Seconds()
 	rep.SolverS = pool.solverTime()
 	rep.Queries = pool.queries()
+	rep.Retried = pool.retries
 	if *outPath != "" {
 		data, _ := json.MarshalIndent(rep, "", " ")
 		os.WriteFile(*outPath, data, 0o644)
